@@ -444,7 +444,8 @@ def static_case(ctx, h, lines, reals):
         kind = rng.choice(['function', 'function', 'function', 'static', 'class', 'dunder', 'noself', 'noargs'])
         nreq, nopt = rng.randint(0, 3), rng.randint(0, 3)
         ps = [f'a{j}' for j in range(nreq)] + [f'b{j}' for j in range(nopt)]
-        pstr = [f'a{j}' for j in range(nreq)] + [f'b{j}={j}' for j in range(nopt)]
+        # (the value of a default does not matter to whether the parameter is required: None, falsy and truthy ones)
+        pstr = [f'a{j}' for j in range(nreq)] + [f'b{j}={rng.choice(["None", "0", "False", repr(""), "()", str(j), repr("x")])}' for j in range(nopt)]
         nm = f'm{i}'
         if kind == 'function':
             if rng.random() < .15:
